@@ -107,22 +107,17 @@ func (r *c13CondRun) note(format string, a ...any) {
 func (m *ruModel) evalLoops(f *kit.Func) map[*ast.RangeStmt]bool {
 	out := map[*ast.RangeStmt]bool{}
 	stores := m.condStores(f)
-	ruInspectOwn(f, func(n ast.Node) bool {
-		rs, ok := n.(*ast.RangeStmt)
-		if !ok {
-			return true
-		}
+	for _, rs := range ruOwnLoops(f) {
 		el := ruSliceElem(f.Info().TypeOf(rs.X))
 		if el == nil || !types.Identical(el, m.cond) {
-			return true
+			continue
 		}
 		for _, st := range stores {
 			if rs.Body.Pos() <= st.Pos() && st.End() <= rs.Body.End() {
 				out[rs] = true
 			}
 		}
-		return true
-	})
+	}
 	return out
 }
 
@@ -166,16 +161,15 @@ func (r *c13CondRun) run() {
 		unitLoops[rs] = true
 	}
 	stores := m.condStores(f)
-	ruInspectOwn(f, func(n ast.Node) bool {
-		if rs, ok := n.(*ast.RangeStmt); ok && m.isPointLoop(f, rs) {
+	for _, rs := range ruOwnLoops(f) {
+		if m.isPointLoop(f, rs) {
 			for _, st := range stores {
 				if rs.Body.Pos() <= st.Pos() && st.End() <= rs.Body.End() {
 					unitLoops[rs] = true
 				}
 			}
 		}
-		return true
-	})
+	}
 	var strParams []*types.Var
 	for _, p := range f.Params() {
 		if b, ok := p.Type().Underlying().(*types.Basic); ok && b.Kind() == types.String {
@@ -397,6 +391,26 @@ func (r *c13CondRun) run() {
 		return s
 	}
 	st.OnNode = func(n ast.Node, s kit.S) []kit.S {
+		// the comparison with the stored state may be held in a local:
+		// `changed := active != c.Active; if changed {`
+		if st.Cur() == f {
+			var rhs []ast.Expr
+			switch x := n.(type) {
+			case *ast.AssignStmt:
+				rhs = x.Rhs
+			case *ast.ValueSpec:
+				rhs = x.Values
+			}
+			for _, rx := range rhs {
+				if !kit.IsBoolType(info.TypeOf(rx)) {
+					continue
+				}
+				if other, leaf := c13CompareSink(info, rx, isCondActive); other != nil {
+					r.observe(other, leaf, s)
+					s = s.Set("sunk", "T")
+				}
+			}
+		}
 		as, ok := n.(*ast.AssignStmt)
 		if !ok {
 			return []kit.S{s}
@@ -838,14 +852,13 @@ func c13R3(c *kit.Ctx, m *ruModel, e *kit.Func, r3, r4 *kit.Rule) *c13Roles {
 	evalLoops := m.evalLoops(e)
 	// conjunction loops: over a condition list, not storing condition state
 	conj := map[*ast.RangeStmt]bool{}
-	ruInspectOwn(e, func(n ast.Node) bool {
-		if rs, ok := n.(*ast.RangeStmt); ok && !evalLoops[rs] {
+	for _, rs := range ruOwnLoops(e) {
+		if !evalLoops[rs] {
 			if el := ruSliceElem(info.TypeOf(rs.X)); el != nil && types.Identical(el, m.cond) {
 				conj[rs] = true
 			}
 		}
-		return true
-	})
+	}
 	o := r3.Ob(e, nil, "conjunction", "the value compared with / stored into the rule's active field is true iff every element of the condition list was examined and found active; no condition state is stored after the loop started")
 	if len(conj) == 0 {
 		o.Undecided("no loop over the condition list besides the evaluation loop: the conjunction is not computed in a recognised form")
@@ -1568,14 +1581,11 @@ func c13R5(c *kit.Ctx, m *ruModel, r5 *kit.Rule) {
 		var sends []string
 		var badSends, undecSends []string
 		loops := map[*ast.RangeStmt]bool{}
-		ruInspectOwn(f, func(n ast.Node) bool {
-			if rs, ok := n.(*ast.RangeStmt); ok {
-				if el := ruSliceElem(info.TypeOf(rs.X)); el != nil && types.Identical(el, m.action) {
-					loops[rs] = true
-				}
+		for _, rs := range ruOwnLoops(f) {
+			if el := ruSliceElem(info.TypeOf(rs.X)); el != nil && types.Identical(el, m.action) {
+				loops[rs] = true
 			}
-			return true
-		})
+		}
 		missing := 0
 		arrived := 0
 		st.OnNode = func(n ast.Node, s kit.S) []kit.S {
